@@ -55,7 +55,8 @@ def _run_chunk(cases):
             env.write("src.zo", bp.render_page(c["src"]))
             env.write("done.zot", TEMPLATE)
             form = c["dest"]
-            dest_rel = "tmpl_dest.zo" if form == "missing-tmpl" else "dest.zo"
+            dest_rel = "tmpl_dest.zo" if form == "missing-tmpl" else "src.zo" if form == "same-page" else "dest.zo"
+            rec["same"] = form == "same-page"
             if form in DEST:
                 env.write(dest_rel, DEST[form])
             r = env.db_create()
@@ -133,7 +134,7 @@ def run(ctx):
             ctx.machinery(f"scenario setup failed for {rec['case']['dest']}: {rec.get('setup_failed')}")
         if rec["rc"] != 0 or rec["exc"]:
             # an unsuccessful move must not have changed anything (the property speaks of successful moves)
-            if rec["src2"] != rec["src"] or (rec["dest"] and rec["dest2"] != rec["dest"]):
+            if rec["src2"] != rec["src"] or (rec["dest"] and not rec["same"] and rec["dest2"] != rec["dest"]):
                 rec["failed_but_changed"] = True
                 todo.append(rec)
             else:
@@ -141,7 +142,7 @@ def run(ctx):
             continue
         todo.append(rec)
     f = tlc.scratch_root() / "moves.ndjson"
-    keys = ("id", "src", "dest", "src2", "dest2", "a", "b", "zid", "marker", "ok2", "nsrc", "ndest", "nsrc2", "ndest2")
+    keys = ("id", "src", "dest", "src2", "dest2", "a", "b", "zid", "marker", "ok2", "same", "nsrc", "ndest", "nsrc2", "ndest2")
     f.write_text("".join(json.dumps({k: rec[k] for k in keys}) + "\n" for rec in todo))
     res = tlc.run_tlc("Trace_Move", env={"ZV_TRACE": str(f)})
     if not res.ok:
